@@ -355,6 +355,62 @@ def f_addsub2(x, y):
     return (y + x) - y
 
 
+def f_add1sub1(x):
+    return (x + 1) - 1
+
+
+REUSE_OPTS = [dict(extra_prec_multiplier=2), dict(extra_prec_multiplier=1, extra_prec=5), dict(extra_prec=40), dict(extra_prec_multiplier=3, extra_prec=2)]
+
+
+def reuse_points(dtname, opts):
+    """x = +-2**-j for every j for which (x + 1) - 1 is exact in the working precision the options promise for this type
+    (p + int(p*multiplier) + extra bits), so the exact result x must come back."""
+    f = FMT[dtname]
+    wp = f["p"] + int(f["p"] * opts.get("extra_prec_multiplier", 0)) + opts.get("extra_prec", 0)
+    jmax = min(wp - 2, -(f["emin"] - f["p"] + 1))
+    dtype = DT[dtname]
+    return np.array([s_ * 2.0 ** -j for j in range(1, jmax + 1) for s_ in (1.0, -1.0)], dtype=dtype)
+
+
+def w_backend_reuse(task):
+    """histories on ONE vectorize_with_mpmath instance: the same object is called with arguments of a sequence of float
+    types; every call must return what the options promise for that type (exact x for (x + 1) - 1 on the points whose
+    intermediate fits the promised working precision), whatever was evaluated through the instance before."""
+    fa = setup_repo_import()
+    u = fa.utils
+    part = new_part()
+    for seq in task["seqs"]:
+        for opts in REUSE_OPTS:
+            optkey = ",".join(f"{k}={v}" for k, v in sorted(opts.items()))
+            try:
+                inst = u.vectorize_with_mpmath(f_add1sub1, **opts)
+            except Exception as e:
+                add_violation(part, f"backend:instance-reuse:raises:{type(e).__name__}", f"vectorize_with_mpmath((x+1)-1, {opts}) raised {e}", {"kind": "backend-reuse", "seq": seq, "opts": optkey})
+                continue
+            for step, dtname in enumerate(seq):
+                xs = reuse_points(dtname, opts)
+                part["evaluations"] += len(xs)
+                if step:
+                    part["nontrivial"] += len(xs)
+                case = {"kind": "backend-reuse", "seq": seq, "opts": optkey}
+                cls = "first-call" if step == 0 else ("after-narrower-type" if FMT[seq[step - 1]]["p"] < FMT[dtname]["p"] else ("after-wider-type" if FMT[seq[step - 1]]["p"] > FMT[dtname]["p"] else "after-same-type"))
+                try:
+                    got = np.asarray(inst(xs))
+                except Exception as e:
+                    add_violation(part, f"backend:instance-reuse:raises:{type(e).__name__}:{cls}", f"one vectorize_with_mpmath((x+1)-1, {opts}) instance called with {seq[:step + 1]}: {type(e).__name__}: {e}", case)
+                    break
+                if got.dtype != xs.dtype:
+                    add_violation(part, f"backend:instance-reuse:result-type:{cls}", f"instance called with {seq[:step + 1]} returns {got.dtype}", case)
+                    continue
+                ui = FMT[dtname]["ui"]
+                bad = np.flatnonzero(got.view(ui) != xs.view(ui))
+                if len(bad):
+                    i = int(bad[0])
+                    add_violation(part, f"backend:instance-reuse:value:{cls}", f"one vectorize_with_mpmath((x+1)-1, {opts}) instance called with argument types {seq[:step + 1]} in turn: last call maps {dtname} {xs[i]!r} to {got[i]!r}; the promised working precision makes the exact result {xs[i]!r} representable ({len(bad)} of {len(xs)} points differ)", case)
+    part["samples"].append({"backend_instance_reuse": "sequences of argument types on one instance", "sequences_in_task": len(task["seqs"])})
+    return part
+
+
 def w_backend_mixed(task):
     """binary functions on arguments of DIFFERENT float types: with extra precision the evaluation happens in the first
     argument's context, so (x + y) - y returns exactly x, in x's type, for every pair of argument types."""
@@ -440,6 +496,12 @@ def run(run):
     tasks = [dict(dtype="float16", alphabet_bits=Ab, rows=[i * step, min(len(Ab), (i + 1) * step)], opt_indices=[0, 2, 3] if not thorough else [0, 1, 2, 3, 4]) for i in range(nsh)]
     run.map(MOD, "w_backend_add", tasks)
     run.map(MOD, "w_backend_mixed", [dict()])
+    import itertools
+
+    dts = ("float16", "float32", "float64")
+    seqs = [list(q) for n in ((1, 2, 3) if thorough else (1, 2)) for q in itertools.product(dts, repeat=n)]
+    run.map(MOD, "w_backend_reuse", [dict(seqs=seqs[i::8]) for i in range(8)])
+    run.counters["backend_instance_reuse_sequences"] = len(seqs)
     run.counters["float16_add_alphabet"] = len(Ab)
     run.rule = (
         f"mpf2float: every odd mantissa < 2**{NB} x leading-bit exponent -30..18 x sign x flush(default,False,True) for float16 (all ties, "
@@ -458,6 +520,9 @@ def replay(case):
     fa = setup_repo_import()
     u = fa.utils
     part = new_part()
+    if case["kind"] == "backend-reuse":
+        p2 = w_backend_reuse(dict(seqs=[case["seq"]]))
+        return [(v["sig"], v["msg"]) for v in p2["violations"] if v["case"]["opts"] == case["opts"]]
     if case["kind"] == "backend-mixed":
         p2 = w_backend_mixed(dict())
         return [(v["sig"], v["msg"]) for v in p2["violations"] if v["case"]["dx"] == case["dx"] and v["case"]["dy"] == case["dy"]]
